@@ -4,6 +4,7 @@ import re
 from engine import rule, AnchorLost
 from model import enum_edge, Super, PathSens, fn_of, trace, strace, is_place, site, const_value, carriers, switches_on_carriers
 import common
+import vocab
 import deny
 import tables
 
@@ -432,7 +433,7 @@ def r05_2(ctx):
         # the bare-source arm: `Input::Reader(source)` with source from into_inner
         for bi, blk in enumerate(b.blocks):
             for s in blk["stmts"]:
-                if s["k"] == "assign" and s["rv"]["k"] == "aggregate" and s["rv"].get("variant") == "Reader" and "Input" in s["rv"].get("adt", ""):
+                if s["k"] == "assign" and s["rv"]["k"] == "aggregate" and s["rv"].get("variant") == vocab.lib_vocab(ctx.facts)["input"]["stream"] and s["rv"].get("adt") == vocab.lib_vocab(ctx.facts)["input"]["path"]:
                     src_ty = b.local_ty(s["rv"]["ops"][0]["p"]["l"]) if is_place(s["rv"]["ops"][0]) else ""
                     ctx.ob(f"reader-arm:{b.name}:{s['line'] - b.raw['span']['line']}", cap not in src_ty, site(b, line=s["line"]), f"Input::Reader payload type {src_ty}", trivial=True)
     ctx.ob("boxing-sites", n >= 1, "lib", f"{n} unsizing coercion(s) to Box<dyn Read> in the Handle->Input conversion")
@@ -620,6 +621,7 @@ def r10_2(ctx):
     # the filter's false edge answers Ok(false) without parsing; true edge parses
     # YAML: document kind table in the chunker
     cn = common.chunker(ctx.facts)["loop"]
+    dk = vocab.doc_kind(ctx.facts)
     coll_events = set()
     scalar_events = set()
     for t in lib.tables_of(cn.id):
@@ -635,11 +637,11 @@ def r10_2(ctx):
             kinds = set()
             for bi in cn.reach():
                 for s in cn.blocks[bi]["stmts"]:
-                    if s["k"] == "assign" and s["rv"]["k"] == "aggregate" and "DocumentKind" in s["rv"].get("adt", "") and sp["line"] <= s["line"] <= sp["end_line"]:
+                    if s["k"] == "assign" and s["rv"]["k"] == "aggregate" and s["rv"].get("adt") == dk["path"] and sp["line"] <= s["line"] <= sp["end_line"]:
                         kinds.add(s["rv"]["variant"])
-            if kinds == {"Collection"}:
+            if kinds == {dk["collection"]}:
                 coll_events |= names
-            elif kinds == {"Scalar"}:
+            elif kinds == {dk["scalar"]}:
                 scalar_events |= names
     ok = coll_events == {"YAML_SEQUENCE_START_EVENT", "YAML_MAPPING_START_EVENT"}
     ctx.ob("yaml:collection-events", ok, site(cn), f"events classifying a document as a collection: {sorted(coll_events)}")
@@ -652,11 +654,11 @@ def r10_2(ctx):
     fills = 0
     for cb in chb:
         for _, t in cb.calls():
-            if (fn_of(t) or {}).get("name") == "get_or_insert" and t["args"] and "DocumentKind" in cb.local_ty(t["dest"]["l"]):
+            if (fn_of(t) or {}).get("name") == "get_or_insert" and t["args"] and dk["path"] in cb.local_ty(t["dest"]["l"]):
                 fills += 1
         for bi, blk in enumerate(cb.blocks):
             for s_ in blk["stmts"]:
-                if not (s_["k"] == "assign" and s_["p"]["pr"] and s_["p"]["pr"][-1]["k"] == "field" and "Option<" in s_["p"]["pr"][-1].get("ty", "") and "DocumentKind" in s_["p"]["pr"][-1].get("ty", "")):
+                if not (s_["k"] == "assign" and s_["p"]["pr"] and s_["p"]["pr"][-1]["k"] == "field" and "Option<" in s_["p"]["pr"][-1].get("ty", "") and dk["path"] in s_["p"]["pr"][-1].get("ty", "")):
                     continue
                 fld = (s_["p"]["pr"][-1]["name"], s_["p"]["pr"][-1].get("adt"))
                 rv = s_["rv"]
@@ -696,7 +698,7 @@ def r10_2(ctx):
         if cb and cb.raw.get("ret_ty") == "bool" and cb.nargs == 1:
             for tb in lib.tables_of(cb.id):
                 for arm in tb["arms"]:
-                    if any("Collection" in str(l) for l in tables.pat_literals(arm["pat"])) and tables.body_result(arm.get("body", {})) == ("lit", True):
+                    if any(dk["collection"] in str(l) for l in tables.pat_literals(arm["pat"])) and tables.body_result(arm.get("body", {})) == ("lit", True):
                         okc = True
     ctx.ob("yaml:trial-answers-is-collection", okc, site(yt), "YAML trial accepts only collection-rooted first documents")
 
